@@ -1,5 +1,5 @@
 (** Extraction roots of the front-end models (driver: extract/drv_front.ml). *)
-From SP Require Design.Flat Design.Layout Front.Trials Front.TrialsWf Front.Create Front.Desugar Front.NestSem Front.NestSem2 Front.NestSem3 Front.DesugarSem Front.CreateFlat Front.CreateOk.
+From SP Require Design.Flat Design.Layout Front.Trials Front.TrialsWf Front.Create Front.Desugar Front.NestSem Front.NestSem2 Front.NestSem3 Front.NestSem4 Front.DesugarSem Front.CreateFlat Front.CreateOk.
 Definition roots :=
   (Front.Trials.trials_required, Front.Trials.trials_for_one_crossing, Front.Trials.trials_for_crossings,
    Front.Trials.model_preambles, Front.Trials.min_trials_raw, Front.Trials.model_min_trials,
@@ -9,7 +9,7 @@ Definition roots :=
    Front.Desugar.desugar, Front.Desugar.combo_weights, Front.Desugar.crossing_size_wo, Front.Desugar.hidden_accepts,
    Front.NestSem.nest_sem, Front.NestSem.nestable_b,
    Front.NestSem2.nest_sem2, Front.NestSem2.nestable_d_b, Front.NestSem2.groups2_b,
-   Front.NestSem3.nestable_c_b, Front.NestSem3.nestable_f_b,
+   Front.NestSem3.nestable_c_b, Front.NestSem3.nestable_f_b, Front.NestSem4.nestable_s_b,
    Front.CreateFlat.create_flat,
    Front.CreateOk.input_ok, Front.CreateOk.window_ok, Front.CreateOk.sustains_consistent, Front.CreateOk.paired, Front.CreateOk.in_flat,
    Front.DesugarSem.free_b, Front.DesugarSem.widen, Front.DesugarSem.orig,
